@@ -1,1 +1,10 @@
 import Abmarl.Props.C07
+#print axioms Abmarl.C07_fair_turns_and_progress
+#print axioms Abmarl.C07_every_call_returns
+#print axioms Abmarl.C07_stub
+#print axioms Abmarl.turnSearch_total
+#print axioms Abmarl.c07_allStep_reports
+#print axioms Abmarl.c07_turnBased_one_live
+#print axioms Abmarl.turnExpect_shape
+#print axioms Abmarl.c07_dynamic_reports
+#print axioms Abmarl.c07_progress
